@@ -108,11 +108,31 @@ def hasBackslashAuthority (out : Bytes) : Bool :=
      | .scheme s => ((v.drop (s.length + 1)).take 2).contains 92
      | .relative => (v.take 2).contains 92)
 
+/-- an href in which three or more slashes stand where a browser looks for the authority
+    (`///x`, `http:///host/p`): a browser skips the extra slashes and finds a host, net/url reads
+    an empty authority -/
+def hasExtraSlashAuthority (out : Bytes) : Bool :=
+  (tokenize out).any fun t => t.attrs.any fun a =>
+    a.key == b!"href" &&
+    (let v := (a.val.dropWhile isC0OrSpace)
+     match classifyUrl v with
+     | .scheme s => (v.drop (s.length + 1)).take 3 == [47, 47, 47]
+     | .relative => v.take 3 == [47, 47, 47])
+
+/-- an href a browser reads with a host while net/url, given the value as written, finds none
+    (or cannot parse it) -/
+def hasHostOnlyForBrowser (out : Bytes) : Bool :=
+  (tokenize out).any fun t => t.attrs.any fun a =>
+    a.key == b!"href" && hostQualified a.val &&
+    (match Url.parse a.val with | some u => u.host.isEmpty | none => true)
+
 def knownClass (prop : String) (p : Policy) (inp out : Bytes) : Option String :=
-  let _ := p
   match prop with
   | "C09" => if sameNameNesting [] (tokenize inp) then some "same-name-nesting" else none
-  | "C11" => if hasBackslashAuthority out then some "backslash-authority" else none
+  | "C11" => if hasBackslashAuthority out then some "backslash-authority"
+             else if hasExtraSlashAuthority out then some "extra-slash-authority"
+             -- URL parsing switched off after the link options: hrefs reach the hardening block as written
+             else if !p.requireParseableURLs && hasHostOnlyForBrowser out then some "unchecked-href" else none
   | _ => none
 
 def joinOrDash (xs : List String) : String := if xs.isEmpty then "-" else String.intercalate "," xs
